@@ -238,6 +238,9 @@ func RunCheck(t *testing.T, c Check) {
 	rapid.Check(t, func(rt *rapid.T) {
 		sc := c.Gen(rt)
 		gen.MaybeLogger(rt, sc)
+		if sc.Zone == "" {
+			sc.Zone = world.ZoneName() // a replay of this case runs under the same local zone
+		}
 		if bad := r.judge(t, sc, true); len(bad) > 0 {
 			rt.Fatalf("%s", bad[0].String())
 		}
@@ -324,7 +327,7 @@ func TestReplay(t *testing.T) {
 // The local time zone of the test process is varied per shard: nothing in the cache may depend
 // on it (HTTP dates are GMT).
 func init() {
-	zones := []*time.Location{time.UTC, time.FixedZone("east", 5*3600+1800), time.FixedZone("west", -8*3600)}
+	zones := []*time.Location{world.Zones["utc"], world.Zones["east"], world.Zones["west"]}
 	h := 0
 	for _, c := range os.Getenv("VERIF_SHARD") {
 		h = h*31 + int(c)
